@@ -264,3 +264,8 @@ pub fn clauses() -> Vec<Clause> {
         Clause::generated("C01", "C01/triples/generated", "Generated three-level trees B(C(A)) / B(op(A1, A2)); the decomposition is taken at the outermost wrapper boundary. Same oracles.", 4000, 150_000, generated(true), check).with_shard(500),
     ]
 }
+
+/// entry point for the libFuzzer targets: the clause's own oracle on a decoded case
+pub fn fuzz_check(case: &Case) -> Verdict {
+    check(case)
+}
